@@ -125,6 +125,10 @@ class Execution:
             self.status = "exception"
             self.exc = "".join(traceback.format_exception_only(type(e), e)).strip()
             self.exc_tb = traceback.format_exc(limit=12)
+            try:
+                self.exc_file = traceback.extract_tb(e.__traceback__)[-1].filename
+            except Exception:
+                self.exc_file = ""
         finally:
             if armed:
                 signal.setitimer(signal.ITIMER_PROF, 0)
@@ -371,6 +375,7 @@ def explore(
     counter = [0]
     completed = [0]
     aborted = [0]
+    third_party = [False]
 
     def run(prefix):
         shim = shim_factory() if shim_factory else None
@@ -378,6 +383,9 @@ def explore(
         counter[0] += 1
         if x.status == "ok":
             completed[0] += 1
+        elif x.status == "exception" and counter[0] == 1:
+            # innermost frame of the traceback: raised by pyhms itself or inside a third-party library (cma, scipy)?
+            third_party[0] = "/site-packages/" in (getattr(x, "exc_file", "") or "")
         res.absorb(x, check_id, unit, nontrivial_rule, sample=(counter[0] in (1, 7)))
         if on_execution is not None:
             on_execution(x)
@@ -420,5 +428,10 @@ def explore(
     rec([tuple(p) for p in (start or [])], parent_points)
     if completed[0] > 0 and not start:
         res.configs_completed += 1
+    elif not start and third_party[0]:
+        # the world's undisturbed run ends in an exception raised INSIDE a third-party library (e.g. an internal assertion of
+        # cma after a numerical breakdown): recorded, not a coverage hole of the harness and not a verdict on any property
+        res.configs_completed += 1
+        res.notes["world whose undisturbed run ends with an exception inside a third-party library"] += 1
     res.wall += time.time() - t0
     return res
